@@ -106,10 +106,22 @@ class _Canon(ast.NodeTransformer):
                 return ast.copy_location(ast.Compare(left=right, ops=[_MIRROR[type(node.ops[0])]()], comparators=[left]), node)
         return node
 
+    _POSITIVE = {ast.NotIn: ast.In, ast.IsNot: ast.Is, ast.NotEq: ast.Eq}
+
+    def _positive(self, test):
+        """The un-negated test when `test` is a negation (`not x`, `a not in b`, `a is not b`, `a != b`), else None."""
+        if isinstance(test, ast.UnaryOp) and isinstance(test.op, ast.Not):
+            return test.operand
+        if isinstance(test, ast.Compare) and len(test.ops) == 1 and type(test.ops[0]) in self._POSITIVE:
+            return ast.copy_location(ast.Compare(left=test.left, ops=[self._POSITIVE[type(test.ops[0])]()], comparators=test.comparators), test)
+        return None
+
     def visit_If(self, node):  # noqa: N802
         self.generic_visit(node)
-        if node.orelse and isinstance(node.test, ast.UnaryOp) and isinstance(node.test.op, ast.Not):
-            return ast.copy_location(ast.If(test=node.test.operand, body=node.orelse, orelse=node.body), node)
+        if node.orelse:
+            pos = self._positive(node.test)
+            if pos is not None:
+                return ast.copy_location(ast.If(test=pos, body=node.orelse, orelse=node.body), node)
         return node
 
     def visit_JoinedStr(self, node):  # noqa: N802
@@ -131,9 +143,43 @@ class _Canon(ast.NodeTransformer):
 
     def visit_IfExp(self, node):  # noqa: N802
         self.generic_visit(node)
-        if isinstance(node.test, ast.UnaryOp) and isinstance(node.test.op, ast.Not):
-            return ast.copy_location(ast.IfExp(test=node.test.operand, body=node.orelse, orelse=node.body), node)
+        pos = self._positive(node.test)
+        if pos is not None:
+            return ast.copy_location(ast.IfExp(test=pos, body=node.orelse, orelse=node.body), node)
         return node
+
+
+def _own_signatures(tree):
+    """{name: [positional parameter names]} of the plain top-level functions and of the classes (through __init__) of a module."""
+    sigs = {}
+    for st in tree.body:
+        if isinstance(st, FUNC_TYPES) and not st.args.vararg and not st.args.posonlyargs and \
+                not any(isinstance(d, ast.Name) and d.id in ('staticmethod', 'classmethod', 'property') for d in st.decorator_list):
+            sigs[st.name] = [a.arg for a in st.args.args]
+        elif isinstance(st, ast.ClassDef):
+            init = next((m for m in st.body if isinstance(m, FUNC_TYPES) and m.name == '__init__'), None)
+            if init is not None and not init.args.vararg and not init.args.posonlyargs and init.args.args:
+                sigs[st.name] = [a.arg for a in init.args.args[1:]]
+    return sigs
+
+
+def _positional_calls(tree, sigs):
+    """Calls of package functions / classes by their plain name: keywords that merely name the next positional parameters become positional
+    (`f(a, y=b)` -> `f(a, b)` for `def f(x, y)`), so that rules reading call arguments are indifferent to that choice.  Returns the count."""
+    n = 0
+    for c in ast.walk(tree):
+        if isinstance(c, ast.Call) and isinstance(c.func, ast.Name) and sigs.get(c.func.id) and c.keywords and not any(isinstance(a, ast.Starred) for a in c.args) \
+                and not any(k.arg is None for k in c.keywords):
+            params = sigs[c.func.id]
+            by_name = {k.arg: k for k in c.keywords}
+            moved = 0
+            while len(c.args) < len(params) and params[len(c.args)] in by_name:
+                k = by_name.pop(params[len(c.args)])
+                c.args.append(k.value)
+                c.keywords.remove(k)
+                moved += 1
+            n += 1 if moved else 0
+    return n
 
 
 class Module:
@@ -288,6 +334,19 @@ class SourceIndex:
         else:
             raise AnalysisError('bin/martinize2 not found under {}'.format(self.root))
         self._nx_graph = None
+        if not os.environ.get('VSTAT_NO_CANON'):
+            # calls of package functions / classes by plain name: one spelling of "positional or keyword" (see _positional_calls)
+            own = {rel: _own_signatures(m.tree) for rel, m in self.modules.items()}
+            by_name = {}
+            for rel, sg in own.items():
+                for name, params in sg.items():
+                    by_name.setdefault(name, []).append(params)
+            for rel, m in self.modules.items():
+                sigs = dict(own[rel])
+                for local, (_modname, orig) in m.imports.items():
+                    if orig is not None and local not in sigs and len(by_name.get(orig, [])) == 1:
+                        sigs[local] = by_name[orig][0]
+                _positional_calls(m.tree, sigs)
         # alpha-normalise local names towards the names the rule sets use (vstat/alpha.py)
         self.renamed = {}
         self.inlined = {}
@@ -303,6 +362,8 @@ class SourceIndex:
                 applied = alpha.normalise_module(module)
                 if applied:
                     self.renamed[rel] = applied
+        from . import util as _util
+        _util.register_signatures(self)
         self.unhoisted = {}
         if not os.environ.get('VSTAT_NO_UNHOIST'):
             from . import unhoist
